@@ -20,7 +20,19 @@ pub open spec fn pae(pieces: Seq<Seq<u8>>) -> Seq<u8> {
     le64(pieces.len() as u64) + pae_body(pieces)
 }
 pub broadcast proof fn lemma_le64_len(n: u64) ensures (#[trigger] le64(n)).len() == 8 {}
-pub broadcast group group_pspec { lemma_le64_len }
+pub broadcast proof fn lemma_views3(ps: Seq<&[u8]>)
+    requires ps.len() == 3
+    ensures #[trigger] views(ps) == seq![ps[0]@, ps[1]@, ps[2]@]
+{ assert(views(ps) =~= seq![ps[0]@, ps[1]@, ps[2]@]); }
+pub broadcast proof fn lemma_views4(ps: Seq<&[u8]>)
+    requires ps.len() == 4
+    ensures #[trigger] views(ps) == seq![ps[0]@, ps[1]@, ps[2]@, ps[3]@]
+{ assert(views(ps) =~= seq![ps[0]@, ps[1]@, ps[2]@, ps[3]@]); }
+pub broadcast proof fn lemma_views5(ps: Seq<&[u8]>)
+    requires ps.len() == 5
+    ensures #[trigger] views(ps) == seq![ps[0]@, ps[1]@, ps[2]@, ps[3]@, ps[4]@]
+{ assert(views(ps) =~= seq![ps[0]@, ps[1]@, ps[2]@, ps[3]@, ps[4]@]); }
+pub broadcast group group_pspec { lemma_le64_len, lemma_views3, lemma_views4, lemma_views5 }
 pub proof fn lemma_shift(x: u64, i: u64)
     requires i < 8
     ensures (x >> (8 * i) as u64) & 255 <= 255,
